@@ -60,6 +60,26 @@ def reloads(ctx, masks, pw, cred, context, idu, ids, ksf, fill=None):
         r = ctx.call("srv_login_finish", sl, o[9]); ctx.expect(r.ok and r.b(0) == o[11], "stepwise server session key equal")
 
 
+def external_key(ctx):
+    """a setup whose static key lives behind an external key holder (its serialized form is an opaque handle, not a
+    scalar): saved and restored, it is the same setup and answers the same"""
+    ctx.nontrivial = True
+    L = ctx.L
+    f = honest_flow(ctx, b"pw", b"alice", None, None, None)
+    ctx.counting = True
+    sk = f.setup[L.Nh:L.Nh + L.Nsk]
+    NO = "~"
+    for key in (sk, bytes([0x40] * (L.Nsk - 1) + [0x00]) if L.ke == "R255" else (bytes([0x00] + [0x40] * (L.Nsk - 1)) if L.ke == "P521" else b"\x40" * L.Nsk)):
+        t = ctx.tape(L.Nh + L.Nsk + 8)
+        r = ctx.call("ext_setup", t, key, 0, model_args=[t, key, NO, NO], impl_extra=1)
+        if not ctx.expect(r.ok, "setup around an external key"):
+            continue
+        d = ctx.call("ext_dec_setup", r.b(0), 0, model_args=[r.b(0), NO, NO], impl_extra=1)
+        ctx.expect(d.ok and d.b(0) == r.b(0), "the setup with an external key restores to itself (%s)" % d.err)
+        g = honest_flow(ctx, b"pw", b"bob", None, None, None, setup=r.b(0), stop_on_error=False)
+        ctx.expect(g.ok, "and serves registration and login after the restore")
+
+
 def cases(tier, seed):
     rnd = random.Random(seed)
     out = []
@@ -69,6 +89,7 @@ def cases(tier, seed):
             masks = list(range(1, 32)) if tier == "thorough" else sorted(set([31, 1, 2, 4, 8, 16] + rnd.sample(range(1, 32), 4)))
             out.append(dict(script=reloads, suite=s, seed=seed * 10000 + si * 10 + k, mode="raw",
                             params=dict(masks=masks, pw=pw, cred=cred, context=c, idu=a, ids=b, ksf=ksf)))
+        out.append(dict(script=external_key, suite=s, seed=seed * 10000 + si * 10 + 4, mode="raw", params={}))
         for k, fill in enumerate((0x40, 0x7f, 0x80, 0x01, 0xc7) if tier == "thorough" else (0x40, 0x7f)):
             out.append(dict(script=reloads, suite=s, seed=seed * 10000 + si * 10 + 5 + k, mode="raw",
                             params=dict(masks=[31, 1, 8, 16], pw=b"pw", cred=b"alice", context=None, idu=None, ids=None, ksf="~", fill=fill)))
